@@ -373,6 +373,7 @@ def analyse(tier, seed, config, cases, counts, crashes, model_ans, count_ans, pr
     dist_outcome = collections.Counter()
     inc_cycles = collections.Counter()
     zst = collections.Counter()
+    alias = collections.Counter()
     distinct = set()
     steps_seen = collections.Counter()
     maxlen = 0
@@ -399,6 +400,9 @@ def analyse(tier, seed, config, cases, counts, crashes, model_ans, count_ans, pr
                 if len(steps_seen) < 64:
                     for s in w[2].split(","):
                         steps_seen[s] += 1
+        elif w[0] in ("alias", "prefix"):
+            alias[w[0] + (("/" + w[4]) if w[0] == "alias" else "") + " " + " ".join(t for t in (c.answer or "").split() if t.startswith(("eq=", "eeq=", "ill", "upgrade")))] += 1
+            distinct.add((w[0], c.query))
         elif w[0] == "zst":
             zst[(c.answer or "").split(" ")[0]] += 1
             distinct.add((w[0], c.query))
@@ -431,7 +435,7 @@ def analyse(tier, seed, config, cases, counts, crashes, model_ans, count_ans, pr
                     f"[{len(g['cases'])} case(s) with this signature]")
         header = [text, f"harness: {HARNESS_SRC} (gc-arena from {_repo()}); tier={tier} seed={seed}",
                   "the body lists the failing case lines: case <target> <chain> <placement> <schedule> <phase> <age> | "
-                  "zst <size> <align> <maxalign> <method> | ill <target> <chain> <s|w>",
+                  "zst <size> <align> <maxalign> <method> | alias <maxalign> <t1> <t2> <rel> <chain1> <chain2> | prefix <n> <k> | ill <target> <chain> <s|w>",
                   f"replay: python3 {ROOT}/lib/eng_conv.py replay C19 <this file>"]
         lines = []
         for c, m in cs:
@@ -499,7 +503,7 @@ def analyse(tier, seed, config, cases, counts, crashes, model_ans, count_ans, pr
             placement_x_schedule=dict(sorted(dist_place_sched.items())),
             phase_requested_to_reached=dict(sorted(dist_reached.items())),
             incremental_schedule_cycles_reached_by_increments=dict(inc_cycles),
-            outcomes=dict(dist_outcome), zst_grid=dict(zst),
+            outcomes=dict(dist_outcome), zst_grid=dict(zst), ptr_eq_alias_grid=dict(sorted(alias.items())),
             well_typed_chain_counts={f"{c[0]}/{c[2]}/len{c[1]}": int(c[3]) for c in counts if c[1] in ("3", "4")},
             chain_count_mismatches=len(bad_counts), compile_probes=probe_summary,
             monitor_cases=n_monitor_cases, disagreements=n_disagree, harness_crashes=len(crashes), timings_s=timings)
